@@ -17,13 +17,13 @@
   displacement through the swap spaces, Tree rotations and the predecessor copy of Tree_Rem, `swap` in the sort)
   carry a token with the bytes: they appear here as list surgery that neither issues nor retires.
 
-  The model mirrors the code that exists, including three paths that break the property (kept as known findings,
+  The model mirrors the code that exists, including two paths that break the property (kept as known findings,
   see CelloProofs/Props/C05.lean `…_refuted`):
     * Box_Assign copies the pointer: a container of Box is copied shallowly (both copies hold the same token),
       and `set` on a Box element drops the old pointee without finalising it;
-    * List_Resize(n > len) links zero-filled elements that were never constructed;
-    * List_Push_At constructs the new element before it validates the index: on IndexOutOfBoundsError the
-      constructed element is neither stored nor finalised.
+    * List_Resize(n > len) links zero-filled elements that were never constructed.
+  (A third one — List_Push_At constructed the new element before it validated the index and leaked it on
+  IndexOutOfBoundsError — was repaired in /repo by 4077d96; the model follows the repaired order.)
 
   Core Lean only (the driver links against this file).
 -/
@@ -113,16 +113,16 @@ def arrayPushAt (next : Nat) (xs : List Tok) (i : Int) (p : Nat) : Res (List Tok
   if j < 0 ∨ j > n then { val := xs, out := .raised .indexOutOfBounds }
   else { val := xs.insertIdx j.toNat ⟨next, p⟩, issued := [⟨next, p⟩] }
 
-/-- List_Push_At: `List_Alloc` + `assign` come first; index 0 links at the head; any other index goes through
-    `List_At` (normalised against `nitems`, so the end position is not reachable) which raises with the new element
-    already constructed: it is leaked. -/
+/-- List_Push_At (after fix 4077d96): the index is validated first — 0 links at the head, any other index goes through
+    `List_At` (normalised against `nitems`, so the end position is not reachable) which raises before anything is
+    allocated; then `List_Alloc` + `assign` + `List_Link`. -/
 def listPushAt (next : Nat) (xs : List Tok) (i : Int) (p : Nat) : Res (List Tok) :=
   let t : Tok := ⟨next, p⟩
   if i = 0 then { val := t :: xs, issued := [t] }
   else
     let n : Int := xs.length
     let j : Int := if i < 0 then n + i else i
-    if j < 0 ∨ j ≥ n then { val := xs, issued := [t], out := .raised .indexOutOfBounds }
+    if j < 0 ∨ j ≥ n then { val := xs, out := .raised .indexOutOfBounds }
     else { val := xs.insertIdx j.toNat t, issued := [t] }
 
 /-- Array_Pop / List_Pop -/
@@ -541,7 +541,7 @@ def liveCount (w : World) : Nat := w.issuedLog.length - w.retiredLog.length
 
 /-! ## In-contract operations
 
-`inContract w op` excludes exactly the territory of the three known findings (see the header).  Everything else —
+`inContract w op` excludes exactly the territory of the two known findings (see the header).  Everything else —
 including every failing call (pop of an empty container, bad index, absent key, refused resize) and
 self-assignment — is inside. -/
 
@@ -562,10 +562,6 @@ def inContract (w : World) : Op → Bool
   | .resize c n =>
     match lookup w.objs c with
     | some (.seq .list _ xs) => n ≤ xs.length
-    | _ => true
-  | .pushAt c i p =>
-    match lookup w.objs c with
-    | some (.seq .list .probe xs) => (listPushAt w.next xs i p).out == .ok
     | _ => true
   | _ => true
 
